@@ -335,8 +335,10 @@ flexrule	:  '^' rule
 					lwarn(
 			"all start conditions already have <<EOF>> rules" );
 
-				else
-					build_eof_action();
+				/* Even then the rule's action has to be
+				 * collected (as dead code): its text follows.
+				 */
+				build_eof_action();
 				}
 			}
 
